@@ -78,6 +78,7 @@ def monitorsWant (c : Spec.Ctx) (obsDelta : Int) (j : Journal) (fatalHere : Bool
   (if Spec.C07.reuseHolds c j then [] else ["C07|reuse"]) ++
   ((Spec.C10.untaintBad c j).map (fun t => "C10|" ++ t)) ++
   (if Spec.C07.amountHolds c want j then [] else ["C07|amount", "C05|compose"]) ++
+  (if Spec.C07.amountHolds c (want + 1000000000) j then [] else ["C17|a SetDesiredCapacity of a scale-up does not raise the desired size the cloud holds (request not current + d)"]) ++
   (if fatalHere then [] else (Spec.C07.shortfall c want j).flatMap (fun t => ["C07|remainder-not-requested: " ++ t, "C05|brought-too-few: " ++ t] ++
     (if unt < c.st.minEff then ["C03|below min_nodes and no cool-down running, but capacity is not restored: " ++ t] else []))) ++
   (if fatalHere then [] else (Spec.C06.bad c j ++ Spec.C06.badStarve c obsDelta j ++ Spec.C06.badMaxAge c obsDelta j).map (fun t => "C06|" ++ t)) ++
@@ -85,6 +86,11 @@ def monitorsWant (c : Spec.Ctx) (obsDelta : Int) (j : Journal) (fatalHere : Bool
 
 def monitors (c : Spec.Ctx) (j : Journal) (fatalHere : Bool) : List String :=
   ((Spec.C19.scanBad c j fatalHere).map (fun t => "C19|" ++ t)) ++
+  (if fatalHere && Spec.notInGroupUnfounded c then
+    ["C20|the scan stopped the controller with the not-in-group error although every removal candidate of this view is a member of the cloud group",
+     "C12|a failure that is not the documented not-in-group condition stopped the scan (every removal candidate is a member): later groups are not processed",
+     "C19|not-in-group reported although every removal candidate is a member"] else []) ++
+  ((Spec.C06.upRemovalBad c j).map (fun t => "C06|" ++ t)) ++
   (if Spec.C01.holds c j then [] else ["C01|" ++ ";".intercalate (Spec.C01.bad c j)]) ++
   (if Spec.C03.holds c j then [] else ["C03|taints added although fewer than min_nodes untainted nodes remain (or while below the minimum)"]) ++
   (if Spec.C12.holds c j then [] else ["C12|" ++ ";".intercalate ((j.filter (fun e => !Spec.C12.okEntry c e)).map (fun e => (toJson e.call).compress))]) ++
